@@ -229,6 +229,79 @@ mut("C06", "or-error-right-dropped", ("internal/eval/partial.go", '''	} else if 
 	}
 	return ast.NodeTypeOr{'''))
 
+# ---- C07
+mut("C07", "mult-calls-member", ("internal/parser/cedar_unmarshal.go", '''	for p.peek().Text == "*" {
+		p.advance()
+		rhs, err := p.unary()''', '''	for p.peek().Text == "*" {
+		p.advance()
+		rhs, err := p.member()'''))
+mut("C07", "sub-right-assoc", ("internal/parser/cedar_unmarshal.go", '''		p.advance()
+		rhs, err := p.mult()
+		if err != nil {
+			return ast.Node{}, err
+		}
+		lhs = operator(lhs, rhs)
+	}
+
+	return lhs, nil''', '''		p.advance()
+		var rhs ast.Node
+		var err error
+		if t.Text == "-" {
+			rhs, err = p.add()
+		} else {
+			rhs, err = p.mult()
+		}
+		if err != nil {
+			return ast.Node{}, err
+		}
+		lhs = operator(lhs, rhs)
+	}
+
+	return lhs, nil'''))
+mut("C07", "relation-chains", ("internal/parser/cedar_unmarshal.go", '''	p.advance()
+	rhs, err := p.add()
+	if err != nil {
+		return ast.Node{}, err
+	}
+	return operator(lhs, rhs), nil''', '''	p.advance()
+	rhs, err := p.relation()
+	if err != nil {
+		return ast.Node{}, err
+	}
+	return operator(lhs, rhs), nil'''))
+mut("C07", "method-as-function", ("internal/parser/cedar_unmarshal.go", '''			if i.IsMethod {
+				return ast.Node{}, p.errorf("`%v` is a method, not a function", prefix)
+XX, ("internal/parser/cedar_unmarshal.go", '''		if known.Contains(k) {
+			return res, p.errorf("duplicate key: %v", k)
+		}''', ''''''))
+mut("C07", "and-operands-swapped-on-third", ("internal/parser/cedar_unmarshal.go", '''	for p.peek().Text == "&&" {
+		p.advance()
+		rhs, err := p.relation()
+		if err != nil {
+			return ast.Node{}, err
+		}
+		lhs = lhs.And(rhs)
+	}''', '''	n := 0
+	for p.peek().Text == "&&" {
+		p.advance()
+		rhs, err := p.relation()
+		if err != nil {
+			return ast.Node{}, err
+		}
+		n++
+		if n == 2 {
+			lhs = rhs.And(lhs)
+			continue
+		}
+		lhs = lhs.And(rhs)
+	}'''))
+mut("C07", "hex-escape-allows-high", ("internal/rust/rust.go", '''	if res > 127 {
+		return 0, i, fmt.Errorf("bad hex escape sequence")
+	}''', ''''''))
+mut("C07", "is-in-rhs-member", ("internal/parser/cedar_unmarshal.go", '''		p.advance()
+		inEntity, err := p.add()''', '''		p.advance()
+		inEntity, err := p.mult()'''))
+
 # ---- C20
 mut("C20", "unmarshal-merges", ("policy_set.go", """	*p = PolicySet{
 		policies: make(PolicyMap, len(jsonPolicySet.StaticPolicies)),
